@@ -445,6 +445,8 @@ func runC04(c *Ctx) {
 	rulePairedEdges(c, "C04.22")
 	ruleLhsOnePerResult(c, "C04.23")
 	ruleContextFirst(c, "C04.24")
+	ruleOutputOpenedTruncating(c, "C04.25")
+	ruleDefaultNameFlagComputed(c, "C04.26")
 	ruleEllipsisOnlyLast(c, "C04.6")
 
 	// C04.10 user identifiers reach the allocator (shared with C12): otherwise a generated local can shadow a user name
